@@ -36,6 +36,7 @@ type ClientOp struct {
 	Parts      []int // sizes of the Write calls, cycled; nil = one Write
 	Gap        Dur   // pause before the second Write (a slow producer)
 	CloseTwice bool
+	StaleClose bool // after the first Write, Close the writer of the previous message once more
 	UseCb      bool // LMTPData with a status callback
 	Sasl       *ClientSaslPlan
 	Park       Dur
@@ -87,6 +88,9 @@ type OpResult struct {
 	Close2Set    bool
 	RawBefore    int // transport octets written by the client before the second Close
 	RawAfter     int
+	StaleSet     bool // the previous message's writer was closed again while this message was being written
+	StaleErr     string
+	StaleRaw     int // transport octets that Close put on the wire
 	Skipped      bool
 	SaslCalls    []string
 }
@@ -103,6 +107,7 @@ type clientDriver struct {
 	class    int
 	tlsCfg   *tls.Config
 	implicit bool
+	prevW    io.WriteCloser // the writer of the last message that was sent and closed
 }
 
 func (r *OpResult) setErr(err error) {
@@ -276,8 +281,18 @@ func (d *clientDriver) doData(c *smtp.Client, cs *ClientScript, op *ClientOp, re
 			break
 		}
 		off += sz
+		if k == 1 && op.StaleClose && d.prevW != nil {
+			// a late clean-up (a deferred Close, say) of the message before this one
+			before := d.rawWritten()
+			e := d.prevW.Close()
+			res.StaleSet, res.StaleRaw = true, d.rawWritten()-before
+			if e != nil {
+				res.StaleErr = e.Error()
+			}
+		}
 	}
 	res.setErr(w.Close())
+	d.prevW = w
 	if op.CloseTwice {
 		res.RawBefore = d.rawWritten()
 		e2 := w.Close()
